@@ -1,3 +1,4 @@
 import Biogo.Properties.C14
 open Biogo.Properties.C14
 #print axioms tube_geometry
+#print axioms qgram_lemma
